@@ -17,6 +17,7 @@ RULE = (
     "(a>0) gives (a*t+b, e). W1 classes: permutations of distinct integers, Gaussian, perfectly separated, perfectly inverted, one-sample "
     "classes, easy counts, 4 cfg; for the zero clause also lattices with ties, touching classes (min pos == max neg) and classes one ulp apart. "
     "Non-trivial: both classes non-empty (always) and not (separated with e==0 by the shortcut) or a zero-clause case; distinct = hash of inputs."
+    " Build-phase additions: up to 1e17 easy samples, outlier gaps, lopsided classes, huge/subnormal magnitudes gated by 'moderate magnitude'."
 )
 ASSUMPTIONS = ["crossing/equivariance clauses: finite scores of moderate magnitude (all non-zero |s| in [1e-150, 1e150]); zero-EER clause: all finite scores incl. 1.7e308 and subnormals", "FPR/FNR at a threshold are taken from the object's own rate methods (decided by C01)"]
 FLIP = {"pos": "neg", "neg": "pos"}
